@@ -656,3 +656,4 @@ V('C03', 'none-loop-identity-guard', SCRIPT, "        for i in range(len(txtmp.v
 V('C06', 'nulldummy-compared-with-int', EVAL, "if stack[-1] != b'':", "if stack[-1] != 0:", 'C06.L1', scope='_CheckMultiSig')
 V('C15', 'level-offset-assigned', CORE, "            j += size", "            j = size", 'C15.M2', scope='CBlock.build_merkle_tree_from_txids')
 V('C02', 'witness-null-asks-last-entry', CORE, "if not self.vtxinwit[n].is_null(): return False", "if not self.vtxinwit[-1].is_null(): return False", 'C02.W1', scope='CTxWitness.is_null')
+V('C20', 'full-filter-test-admits-empty', BLOOM, "        if len(self.vData) == 1 and self.vData[0] == 0xff:\n            return True", "        if len(self.vData) <= 1 and self.vData[0] == 0xff:\n            return True", 'C20.G1', scope='CBloomFilter.contains')
